@@ -286,5 +286,9 @@ def gen_history(rng, n_ops, evpn=False, long_paths=False, limits=False, deferral
             if live_tok[addr] + 10 < 60:
                 live_tok[addr] = live_tok[addr] + 10
         elif k == 'deferral':
-            ops.append(('startdef',) if rng.random() < 0.5 else ('enddef',))
+            # start_deferral is a start-up operation (empty family): it is generated
+            # only as the first operation; end_deferral anywhere
+            ops.append(('enddef',))
+    if deferral and rng.random() < 0.8:
+        ops.insert(0, ('startdef',))
     return dict(shard=rng.choice([0, 0, 1, 3]), addrs=[1, 2, 3], ctrs=[a + 10 * g for g in range(6) for a in (1, 2, 3)], evpn=evpn, ops=ops)
